@@ -24,7 +24,7 @@ from mc.ref import typing as rt
 PROPERTY = "C14"
 MAXTASKS = 50
 RULE = (
-    "every sequence of <=2 operations (<=3 in thorough) from an alphabet of 51 concrete operations, every "
+    "every sequence of <=2 operations (<=3 in thorough) from an alphabet of 52 concrete operations, every "
     "sequence of 3 (4 in thorough) over a reduced 14-operation alphabet; "
     "operations range over 5 environments (module default, two instances, a subclass with "
     "max_recursion_depth=2, a subclass registering its own function), 8 queries and 4 documents, each "
@@ -98,6 +98,10 @@ def ops_alphabet(tier_small=False):
     # implementation on the same environment: the old compiled query and a fresh compile of the same
     # text must behave identically (both follow the registry as it is when they are applied)
     ops += [("handle_after_reregister", "E1"), ("handle_after_reregister", "E2")]
+    # an environment configured with very large limits applies a descendant query: whatever it does to
+    # honour them must stay inside that environment (the interpreter's recursion limit is process-wide
+    # and decides whether a very long query on ANY environment completes or raises)
+    ops += [("big_env_descend",)]
     # many rejected compilations on one environment: nothing may be left behind in its parser / lexer
     ops += [("reject_many", "E1"), ("reject_many", "D")]
     # a valid pattern, then patterns that are not I-Regexps (twice): always false, whatever came before
@@ -272,13 +276,58 @@ def observe(fn):
     return ("ok", [list(n.location) for n in r])
 
 
+def _stack_probe(w, n):
+    q = "$" + "[0]" * n
+    doc = 1
+    for _ in range(n):
+        doc = [doc]
+    return observe(lambda: w.env("E1").find(q, doc))[:2]
+
+
+def _recursion_limit_effect(w, limit0):
+    """the interpreter's recursion limit differs from the one this history started with: show that a
+    query's outcome now depends on it (a query whose evaluation depth lies between the two limits)"""
+    import sys
+    now = sys.getrecursionlimit()
+    n = (limit0 + now) // 2
+    try:
+        changed = _stack_probe(w, n)
+        sys.setrecursionlimit(limit0)
+        pristine = _stack_probe(w, n)
+    finally:
+        sys.setrecursionlimit(limit0)
+    if tuple(changed) != tuple(pristine):
+        return ({"query_segments": n, "outcome_before_the_history": pristine[0] if pristine[0] == "ok" else pristine[1]},
+                {"outcome_after_the_history": changed[0] if changed[0] == "ok" else changed[1],
+                 "interpreter_recursion_limit": [limit0, now]})
+    return None
+
+
 def run_history(hist):
+    import sys
+    limit0 = sys.getrecursionlimit()
+    try:
+        return _run_history(hist, limit0)
+    finally:
+        sys.setrecursionlimit(limit0)
+
+
+def _run_history(hist, limit0):
     """-> None | (step index, op, expected, observed)"""
+    import sys
     w = World()
     m = Model()
     for i, op in enumerate(hist):
         kind = op[0]
-        if kind == "compile":
+        if kind == "big_env_descend":
+            class Big(w.jp.JSONPathEnvironment):
+                max_recursion_depth = 2 * limit0
+                max_int_index = 2**62
+                min_int_index = -(2**62)
+
+            exp = ("ok", [["a"], ["a", 0, "a"]])
+            obs = observe(lambda: Big().find("$..a", {"a": [{"a": 1}]}))
+        elif kind == "compile":
             _, e, q = op
             exp = m.expect(e, q, None, w.docs)
             obs = observe(lambda: w.env(e).compile(Q[q]))
@@ -423,6 +472,10 @@ def run_history(hist):
         bad = w.docs_intact()
         if bad:
             return (i, op, "document unchanged", {"document_modified": bad})
+        if sys.getrecursionlimit() != limit0:
+            eff = _recursion_limit_effect(w, limit0)
+            if eff:
+                return (i, op, eff[0], eff[1])
     return None
 
 
